@@ -58,6 +58,8 @@ def cases(tier, seed):
     for alpha in (None, 1.0, 2.0, "auto", "auto_po2"):
       out.append({"cls": cls, "kw": {"alpha": alpha}})
   out.append({"cls": "binary", "kw": {"alpha": 1.0, "use_01": True}})
+  for alpha in (None, 2.0, "auto"):
+    out.append({"cls": "binary", "kw": {"alpha": alpha, "use_01": True}})
   out.append({"cls": "ternary", "kw": {"alpha": 1.0, "threshold": 0.7}})
   for bits, sym, real, sig in P([2, 4, 8], [False, True], [False, True], ["hard", "smooth"]):
     if real and sig == "smooth":
